@@ -1,5 +1,48 @@
 import Pearl.Gen.Consts
-/-! The harness waits 260 ms to be past the debounce interval; the model's `debounceSure` is 250. -/
+import Pearl.Model.Worker
+/-! Tie of the worker model (L7) to the current source through the translator. -/
 namespace Pearl.Tie.C13
+
+/-- The harness waits 260 ms to be past the debounce interval; the model's `debounceSure` is 250. -/
 theorem debounce_below_wait : Gen.DEFAULT_DEBOUNCE_MS < 250 := by decide
+
+/-- the request kinds of `process_msg`, in the order of its `match` -/
+def variantName : OpType → String
+  | .forceUpdateActiveBlob => "ForceUpdateActiveBlob"
+  | .closeActiveBlob => "CloseActiveBlob"
+  | .createActiveBlob => "CreateActiveBlob"
+  | .restoreActiveBlob => "RestoreActiveBlob"
+  | .tryDumpBlobIndexes => "TryDumpBlobIndexes"
+  | .tryFsyncData => "TryFsyncData"
+  | .tryUpdateActiveBlob => "TryUpdateActiveBlob"
+  | .deferredDumpBlobIndexes => "DeferredDumpBlobIndexes"
+
+/-- the calls `Pearl.processOp` stands for, per request kind (`?` = the error leaves `process_msg`):
+    `replaceActive`, `closeActive`, `tryCreateActive`, `restoreActive`, `tryRunDump`, `tryRunFsync`,
+    `tryUpdateActive` then `tryRunDump` / `deferDump`, `deferDump` -/
+def modelCalls : OpType → String
+  | .forceUpdateActiveBlob => "update_active_blob?"
+  | .closeActiveBlob => "close_active_blob?"
+  | .createActiveBlob => "create_active_blob?"
+  | .restoreActiveBlob => "restore_active_blob?"
+  | .tryDumpBlobIndexes => "try_run_old_blob_indexes_dump_task"
+  | .tryFsyncData => "try_run_fsync_task"
+  | .tryUpdateActiveBlob => "try_update_active_blob? try_run_old_blob_indexes_dump_task defer_blob_indexes_dump?"
+  | .deferredDumpBlobIndexes => "defer_blob_indexes_dump?"
+
+/-- every arm of `process_msg` in the source is the arm of `processOp` with the same calls, and there is no other arm -/
+theorem worker_dispatch :
+    Gen.WORKER_DISPATCH =
+      [OpType.forceUpdateActiveBlob, .closeActiveBlob, .createActiveBlob, .restoreActiveBlob, .tryDumpBlobIndexes,
+       .tryFsyncData, .tryUpdateActiveBlob, .deferredDumpBlobIndexes].map (fun t => (variantName t, modelCalls t)) := by
+  decide
+
+/-- both receive paths of the loop (`tick`, `tick_with_deadline`) log an error of `process_msg` and go on: the loop of
+    the current source is `processMsgFixed` (`ErrorPolicy.logAndContinue`), the policy the C13 theorems are about -/
+theorem worker_error_policy : Gen.WORKER_MSG_ERROR_POLICY = ["log", "log"] := by decide
+
+/-- `should_update_active_blob`: `file_size >= max_size || records_count >= max_count`, then `age > debounce`
+    (`Pearl.tryUpdateActive` / `Driver.afterWrite`: `count ≥ maxCount`, `size ≥ maxSize`, age above the debounce interval) -/
+theorem rotation_test : Gen.ROTATE_TEST = [">=", "||", ">=", ">"] := by decide
+
 end Pearl.Tie.C13
